@@ -395,9 +395,11 @@ impl BuiltInFunction {
 
                 let view = v.0.borrow();
 
+                // values of a kind that has no `==` (objects, maps) are found by identity, like `is`
                 let result = view.iter().enumerate().find(|(_, x)| {
-                    x.equals(primitive)
-                        .expect("the compiler allowed an illegal type comparison")
+                    x.equals(primitive).unwrap_or_else(|_| {
+                        matches!(x.runtime_addr_check(primitive), Ok(Primitive::Bool(true)))
+                    })
                 });
 
                 if let Some((result, _)) = result {
